@@ -77,6 +77,7 @@ type xworld struct {
 	// importAfter, when set, is asked after every call for events recorded elsewhere (the first
 	// driver's string log) that belong to that call
 	importAfter func(callID int) []xev
+	before      string // history follow-ups: class of the case they follow
 }
 
 type xdb struct {
@@ -562,6 +563,7 @@ func (w *xworld) judgeCall(c *kit.Case, call *xcall) xverdict {
 		"call": map[string]any{"id": call.ID, "class": call.Class, "entry": call.Entry, "body_runs": call.BodyRuns,
 			"body_returned": fmt.Sprint(call.BodyRet), "body_panicked": call.BodyPanicked, "returned": fmt.Sprint(call.Ret),
 			"escaped_panic": fmt.Sprint(call.Escaped), "ctx_ended_during_call": call.CtxEnded},
+		"case_before":             w.before,
 		"driver_log_until_return": renderLog(log),
 		"driver_log_afterwards":   renderLog(full[len(log):]),
 	}
@@ -727,6 +729,7 @@ func (w *xworld) followUps(c *kit.Case, class string, sames []sqlx.SqlConn, mayR
 	for _, d := range w.dbs {
 		d.heal()
 	}
+	w.before = class
 	w.mu.Lock()
 	w.hook = nil
 	w.mu.Unlock()
@@ -740,7 +743,7 @@ func (w *xworld) followUps(c *kit.Case, class string, sames []sqlx.SqlConn, mayR
 			if healthy {
 				kind = "healthy"
 			}
-			call := w.newCall("after-"+class, entry)
+			call := w.newCall("after-"+historyGroup(class), entry)
 			call.MustCommit = healthy && !reject
 			call.MayReject = reject
 			w.transact(call, sc, context.Background(), func(ctx context.Context, sess sqlx.Session) error {
@@ -762,6 +765,20 @@ func (w *xworld) followUps(c *kit.Case, class string, sames []sqlx.SqlConn, mayR
 		run(sc, "same-conn", mayReject)
 	}
 	run(fresh, "other-conn", false)
+}
+
+// historyGroup coarsens the class of the case that went before (state that leaks through a
+// process-wide pool shows up after unrelated cases as well: the exact predecessor is in the witness).
+func historyGroup(class string) string {
+	for _, g := range []string{"ctx", "nested", "breaker", "panic", "rollback", "commit", "begin", "stmt", "body", "open"} {
+		if strings.Contains(class, g) {
+			if g == "body" {
+				return "body-error"
+			}
+			return g
+		}
+	}
+	return "other"
 }
 
 // oldLogEvents turns a window of the first driver's string log into events of one call (that driver
